@@ -20,6 +20,16 @@ def main():
     for a in cfg.get("agents", []):
         if a.get("type", "").startswith("tap-") and spec.get("tap_starting_nodes"):
             a.setdefault("agent_settings", {})["starting_nodes"] = list(spec["tap_starting_nodes"])
+    if spec.get("tap_rescan"):
+        # a threat actor whose scan list does not hold its target and who keeps scanning: after the list is exhausted every
+        # restart is a stochastic choice among the configured networks
+        for a in cfg.get("agents", []):
+            if a.get("type") == "tap-001":
+                st = a["agent_settings"]
+                st.update({"start_step": 1, "frequency": 1, "variance": 0})
+                pr = st["kill_chain"]["PROPAGATE"]
+                pr.update({"repeat_scan": True, "scan_attempts": 500,
+                           "network_addresses": ["192.168.230.0/29"] + ["10.77.%d.0/30" % i for i in range(1, 8)]})
     cfg["game"]["seed"] = spec["game_seed"]
     on = bool(spec["logging"])
     cfg["io_settings"] = {"save_agent_actions": on, "save_step_metadata": on, "save_pcap_logs": on, "save_sys_logs": on, "save_agent_logs": on,
@@ -36,7 +46,7 @@ def main():
         table = {}
         out.write(json.dumps({"ep": ep, "t": -1, "obs": digest(world.norm_state(tolist(obs), table))}) + "\n")
         for t in range(spec["steps"]):
-            a = rng.randrange(n)
+            a = rng.randrange(n) if not spec.get("idle") else 0
             obs, rew, term, trunc, info = env.step(a)
             acts = {name: world.norm_state(item_dump(h), table) for name, h in info["agent_actions"].items()}
             rec = {"ep": ep, "t": t, "a": a, "obs": digest(world.norm_state(tolist(obs), table)), "rew": repr(float(rew)),
